@@ -1312,6 +1312,69 @@
 		t.finish();
 	}
 
+	/// C06: "maps a field or method through the nearest declaring super type": a declaration whose name is the SAME in both namespaces is
+	/// still a declaration -- it answers the query (with its unchanged name) and hides a renamed declaration further up.
+	/// Bound: classes A, B, C, D, all named in both namespaces; each declares field (I, f) / method (()V, m) in one of three ways: not at all,
+	/// with an unchanged name (f -> f), renamed (f -> f<class>); 3^4 = 81 sets x 4 inheritance graphs x both directions x 4 owners x field/method.
+	#[test]
+	fn unchanged_names_are_declarations_too() {
+		let mut t = Tally::new("unchanged_names_are_declarations_too");
+		let graphs: Vec<Vec<(&str, Vec<&str>)>> = vec![
+			vec![],
+			vec![("D", vec!["C"]), ("C", vec!["B"]), ("B", vec!["A"])],
+			vec![("D", vec!["B", "C"]), ("B", vec!["A"]), ("C", vec!["A"])],
+			vec![("D", vec!["C", "B"]), ("C", vec!["A"])],
+		];
+		for code in 0..81usize {
+			let mut m = MSet { ns: vec!["s".into(), "a".into()], classes: BTreeMap::new() };
+			let mut c = code;
+			for k in RKEYS {
+				let how = c % 3; c /= 3;
+				let mut cl = MClass { names: vec![Some(k.to_string()), Some(format!("{k}1"))], comment: None, fields: BTreeMap::new(), methods: BTreeMap::new() };
+				if how > 0 {
+					let (fnm, mnm) = if how == 1 { ("f".to_string(), "m".to_string()) } else { (format!("f{k}"), format!("m{k}")) };
+					cl.fields.insert(("I".into(), "f".into()), MField { names: vec![Some("f".into()), Some(fnm)], comment: None });
+					cl.methods.insert(("()V".into(), "m".into()), MMethod { names: vec![Some("m".into()), Some(mnm)], comment: None, params: BTreeMap::new() });
+				}
+				m.classes.insert(k.to_string(), cl);
+			}
+			let lm = load::<2, ()>(&m);
+			for (from, to) in [(0usize, 1usize), (1, 0)] { for g in &graphs {
+				let graph: Graph = g.iter().map(|(k, v)| (name_in(&m, from, k), v.iter().map(|s| name_in(&m, from, s)).collect())).collect();
+				let input = || format!("{} from {:?} to {:?} inheritance {graph:?}", txt(&m), m.ns[from], m.ns[to]);
+				t.at(input().as_bytes());
+				t.case(code % 3 != 0 || !g.is_empty());
+				real(&mut t, &input, || {
+					let (nf, nt) = (Namespace::<2>::new(from).unwrap(), Namespace::<2>::new(to).unwrap());
+					let inh = Inh(graph.iter().map(|(k, v)| (oc(k), v.iter().map(|s| oc(s)).collect())).collect());
+					let rb = lm.remapper_b(nf, nt, &inh).map_err(|e| format!("{e:#}"))?;
+					for method in [false, true] {
+						let (src, desc) = if method { ("m", "()V") } else { ("f", "I") };
+						let mut spellings: BTreeSet<String> = ["zz".to_string(), src.to_string()].into();
+						for k in RKEYS { spellings.insert(format!("{src}{k}")); }
+						for owner_key in RKEYS { for name in &spellings {
+							let owner = name_in(&m, from, owner_key);
+							let q = Query { m: &m, from, to, g: &graph, method, name, desc };
+							let mut off = false;
+							let want = o_member(&q, &owner, &mut off).unwrap_or((name.clone(), desc.to_string()));
+							if off { return Err("harness: every class of this universe is named in both namespaces".into()); }
+							let got = if method {
+								let r = rb.map_method(oc(&owner).as_slice(), MethodName::try_from(JavaString::from(name.as_str())).unwrap().as_slice(), MethodDescriptor::try_from(JavaString::from(desc)).unwrap().as_slice()).map_err(|e| format!("{e:#}"))?;
+								(r.name.to_string(), r.desc.as_inner().to_string())
+							} else {
+								let r = rb.map_field(oc(&owner).as_slice(), FieldName::try_from(JavaString::from(name.as_str())).unwrap().as_slice(), FieldDescriptor::try_from(JavaString::from(desc)).unwrap().as_slice()).map_err(|e| format!("{e:#}"))?;
+								(r.name.to_string(), r.desc.as_inner().to_string())
+							};
+							if got != want { return Err(format!("{} {owner}.{name} {desc} -> {got:?}, expected {want:?}", if method { "method" } else { "field" })); }
+						}}
+					}
+					Ok(())
+				});
+			}}
+		}
+		t.finish();
+	}
+
 	/// C06, the queries excluded from `remapper_consistency` as a deviation: the search for the nearest declaring super type has to pass
 	/// through a class that the mapping set does not contain ("missing intermediate classes" in the property's quantifier).
 	/// Bound: chains C < B < A and D < C < B < A where exactly the intermediate classes are missing from the set; field and method of A.
